@@ -29,8 +29,8 @@ IdOf(name) == CHOOSE k \in Ids : Catalogue[k].name = name
 Zid   == IdOf("z")
 L       == IF Quick THEN 3 ELSE 4
 SoupLen == IF Quick THEN 6 ELSE 8
-(* a x 0 . space newline ' " ` \ % / * (  *)
-SoupAlphabet == {97, 120, 48, 46, 32, 10, 39, 34, 96, 92, 37, 47, 42, 40}
+(* a x 0 . space newline ' " ` \ % / * ( ) |   (the bar is an infix operator in the driver's session: library(dcgs) is loaded) *)
+SoupAlphabet == {97, 120, 48, 46, 32, 10, 39, 34, 96, 92, 37, 47, 42, 40, 41, 124}
 
 Sentinel == Seg("sentinel", <<115, 101, 110, 116, 105, 110, 101, 108, 40, 52, 50, 41, 46, 10>>, "term", "valid",
                 [t |-> "c", n |-> <<115, 101, 110, 116, 105, 110, 101, 108>>, i |-> 0,
